@@ -391,8 +391,9 @@ class Index:
                 self._index_func(g)
 
     def _link_classes(self):
-        for m in self.modules.values():
-            for c in m.classes.values():
+        for lst in list(self.classes_by_name.values()):
+            for c in lst:
+                m = c.module
                 for b in c.node.bases:
                     if isinstance(b, ast.Subscript):  # Generic[...] / X[T]
                         b = b.value
